@@ -33,6 +33,9 @@ class Flags(Hooks):
     def join_special(self, k, a, b):
         return a if a == b else None
 
+    post_call = None
+    on_edge = None
+
 
 def partition(A, env):
     return env.get('$flags', frozenset())
